@@ -540,6 +540,9 @@ func structStream(c *vh.Ctx, m *vh.Model) {
 		structCase(c, m, name, inst[name], instSrc[name])
 	}
 	orderStream(c, m)
+	if os.Getenv("C16_NOPROBE") == "" { // development aid: see only what the differential run reports
+		scalarStream(c, m, inst, nil)
+	}
 }
 
 func orderStream(c *vh.Ctx, m *vh.Model) {
@@ -632,6 +635,14 @@ func structReplay(c *vh.Ctx, m *vh.Model, rc replayCase) {
 		if prog, _ := parseSnippet(src, filepath.Join(pdir, fmt.Sprintf("s%d.php", i))); prog != nil {
 			collect(reflect.ValueOf(prog), map[uintptr]bool{}, inst, 0)
 		}
+	}
+	if rc.Kind == "scalar" {
+		if rc.Scalar == nil || inst[rc.Type] == nil {
+			c.Note("replay: no instance of %s found", rc.Type)
+			return
+		}
+		scalarStream(c, m, inst, rc.Scalar)
+		return
 	}
 	if rc.Kind == "order" {
 		if n, ok := ordInst[rc.Type+"."+rc.Snip]; ok {
